@@ -85,8 +85,8 @@ class ComponentLevel1( NamedObject ):
 
   def add_constraints( s, *args ):
     if isinstance( s, Placeholder ):
-      raise InvalidPlaceholderError( "Cannot define constraints {}"
-              "in a placeholder component.".format( blk.__name__ ) )
+      raise InvalidPlaceholderError( "Cannot define constraints "
+              "in a placeholder component {!r}.".format( s ) )
     for (x0, x1, is_equal) in args:
       assert is_equal == False
       assert isinstance( x0, U ) and isinstance( x1, U ), "Only accept up1<up2"
